@@ -4187,7 +4187,7 @@ impl Compiler {
                     }
 
                     // The variable has received its value, is a jump needed?
-                    if is_last_pattern && !params.is_last_alternative {
+                    if params.has_last_pattern && is_last_pattern && !params.is_last_alternative {
                         // e.g. x, 0, y or x, 1, y if x == y then
                         //            ^ ~~~~~~ We're here, jump to the if condition
                         self.push_op(Jump, &[]);
@@ -4219,7 +4219,7 @@ impl Compiler {
                     }
 
                     // The ignored id has been validated, is a jump needed?
-                    if is_last_pattern && !params.is_last_alternative {
+                    if params.has_last_pattern && is_last_pattern && !params.is_last_alternative {
                         // e.g. x, 0, _ or x, 1, y if foo x then
                         //            ^~~~~~~ We're here, jump to the if condition
                         self.push_op(Jump, &[]);
@@ -4233,7 +4233,10 @@ impl Compiler {
                         MatchArmParameters {
                             match_register: params.match_register,
                             is_last_alternative: params.is_last_alternative,
-                            has_last_pattern: params.has_last_pattern,
+                            // Only the last pattern of the outermost list may jump to the end of
+                            // the alternatives; a nested list that is followed by more patterns
+                            // has to fall through to them.
+                            has_last_pattern: params.has_last_pattern && is_last_pattern,
                             jumps: params.jumps,
                         },
                         Some(pattern_index),
@@ -4254,7 +4257,7 @@ impl Compiler {
                             );
                         }
 
-                        if !params.is_last_alternative {
+                        if params.has_last_pattern && !params.is_last_alternative {
                             // Ellipses match unconditionally in last position,
                             // multi-expression pattern, skip over the remaining alternatives
                             // e.g. (x, 0, rest...) or (x, 1, y) if rest.size() > 0 then
@@ -4297,7 +4300,7 @@ impl Compiler {
                     self.try_unpack_map(map_register, entries, type_hint, jumps, ctx)?;
 
                     // The map pattern been validated, is a jump needed?
-                    if is_last_pattern && !params.is_last_alternative {
+                    if params.has_last_pattern && is_last_pattern && !params.is_last_alternative {
                         // e.g. x, 0, {y: 1} or x, 1, {y: 2} if foo x then
                         //                 ^~~~ We're here, jump to the if condition
                         self.push_op(Jump, &[]);
